@@ -211,7 +211,7 @@ const c11Rule = "rapid draws core, limits (75% with a limit below M, 25% R=W=M),
 
 func TestC11(t *testing.T) {
 	hx.Run(t, hx.Prop[limitCase]{
-		ID: "C11", Sub: "limits", Rule: c11Rule, Checks: hx.Scale(30000, 3000000),
+		ID: "C11", Sub: "limits", Rule: c11Rule, Checks: hx.Scale(30000, 16000000),
 		Gen: genLimitCase, Judge: judgeLimitCase,
 	})
 }
